@@ -95,13 +95,24 @@ fn format_standard(value: f64) -> String {
     add_thousand_separators(&formatted)
 }
 
+/// Decimal exponent of a non-zero finite number: the e with 10^e <= |value| < 10^(e+1).
+///
+/// Read off the scientific rendering, which is exact. `log10().floor()` is not: log10 rounds
+/// to the next integer for values just below a power of ten (999999.9999999986 -> 6.0).
+fn decimal_exponent(value: f64) -> i32 {
+    format!("{:e}", value.abs())
+        .split_once('e')
+        .and_then(|(_, exponent)| exponent.parse().ok())
+        .unwrap_or(0)
+}
+
 /// Round a number to n significant figures
 fn round_to_significant_figures(value: f64, sig_figs: u32) -> f64 {
     if value == 0.0 {
         return 0.0;
     }
 
-    let magnitude = value.abs().log10().floor() as i32;
+    let magnitude = decimal_exponent(value);
     let scale = 10_f64.powi(sig_figs as i32 - 1 - magnitude);
     (value * scale).round() / scale
 }
@@ -111,10 +122,10 @@ fn format_float_significant(value: f64, max_sig_figs: usize) -> String {
     // Determine how many decimal places we need
     let abs_value = value.abs();
     let magnitude = if abs_value >= 1.0 {
-        abs_value.log10().floor() as i32 + 1
+        decimal_exponent(abs_value) + 1
     } else {
         // For numbers < 1, count leading zeros
-        -(abs_value.log10().floor() as i32)
+        -decimal_exponent(abs_value)
     };
 
     // Calculate decimal places needed for significant figures
